@@ -43,7 +43,10 @@ def interp_array_to_approx_dt(values, dt, target_dt=0.01, even=True):
     else:
         factor = 1 / np.floor(1 / factor)
     t_int = np.arange(len(values))
-    new_npts = factor * len(values)
+    if factor < 1:  # n / m is correctly rounded; (1 / m) * n can fall just below an integer (m = 49, 98, ...)
+        new_npts = len(values) / np.floor(1 / factor)
+    else:
+        new_npts = factor * len(values)
     if even:
         new_npts = 2 * int(new_npts / 2)
     t_db = np.arange(new_npts) / factor
@@ -104,7 +107,10 @@ def resample_to_approx_dt(asig, target_dt=0.01, even=True):
         factor = int(np.ceil(factor))
     else:
         factor = 1 / np.floor(1 / factor)
-    new_npts = int(factor * asig.npts)
+    if factor < 1:  # n / m is correctly rounded; (1 / m) * n can fall just below an integer (m = 49, 98, ...)
+        new_npts = int(asig.npts / np.floor(1 / factor))
+    else:
+        new_npts = int(factor * asig.npts)
     if even:
         new_npts = 2 * int(new_npts / 2)
     acc_interp = resample(asig.values, new_npts)
